@@ -490,9 +490,12 @@ class SearchRun:
             dist = [l for l, v in cands.items() if v.ty in INT_RANGES_ and v.term.const_value() == INT_RANGES_[v.ty][1]]
             if len(dist) == 1:
                 dty = cands[dist[0]].ty
-                best = [l for l, v in cands.items() if v.term.const_value() == 0 and v.ty == dty]
+                zero = [l for l, v in cands.items() if v.term.const_value() == 0 and l != dist[0]]
+                best = [l for l in zero if cands[l].ty == dty] or ([l for l in zero if cands[l].ty in INT_RANGES_ and INT_RANGES_[cands[l].ty][1] < self.qz.H])
                 if len(best) == 1:
                     self.acc_locals = {best[0]: cands[best[0]], dist[0]: cands[dist[0]]}
+                    # the best candidate is remembered as a voltage in microvolts, or (a type too narrow for that) as a note number
+                    self.form = 'note' if INT_RANGES_[cands[best[0]].ty][1] < self.qz.H else 'uv'
         if depth == 0:
             # the octave list being iterated (one per path reaching the outer loop)
             seen_terms = set()
@@ -535,7 +538,7 @@ class SearchRun:
                 pc = st.ctx.sym_range(st.fresh_name('prev.pc'), 0, 11, integer=True)
                 kk = st.ctx.sym_range(st.fresh_name('prev.oct'), 0, qz.MAX_OCT + 1, integer=True)
                 st.ctx.assume(qz.enabled(Poly.sym('self.allowed'), pc, st.ctx))
-                cand = pc.scale(qz.H) + kk.scale(qz.O)
+                cand = (pc + kk.scale(12)) if getattr(self, 'form', 'uv') == 'note' else (pc.scale(qz.H) + kk.scale(qz.O))
                 for l, v0 in self.acc_locals.items():
                     c0 = v0.term.const_value()
                     if c0 == 0:
@@ -554,15 +557,25 @@ class SearchRun:
             st.tags['search_visit'] = self.visits     # one analysed iteration per path reaching the inner loop head
 
 
-def inv_B(qz, t, ctx):
-    """does term t have the form pc*H + k*O with pc in [0,11] enabled (under ctx)?"""
-    q = t_idiv(t, Poly.const(qz.H), ctx)
+def best_to_volt(qz, t, ctx, form):
+    """voltage (microvolts) of the candidate a best-candidate accumulator stands for"""
+    if form == 'note':
+        return t_mod(t, Poly.const(12), ctx).scale(qz.H) + t_idiv(t, Poly.const(12), ctx).scale(qz.O)
+    return t
+
+
+def inv_B(qz, t, ctx, form='uv'):
+    """does term t have the form pc*H + k*O (or, as a note number, 12*k + pc) with pc in [0,11] enabled (under ctx)?"""
+    q = t if form == 'note' else t_idiv(t, Poly.const(qz.H), ctx)
     pc = t_mod(q, Poly.const(12), ctx)
     k = t_idiv(q, Poly.const(12), ctx)
     lo, hi = ctx.rng(pc)
     if not (lo >= 0 and hi <= 11):
         return False, 'pitch class %r not within [0,11]' % (pc,)
-    if t != pc.scale(qz.H) + k.scale(qz.O):
+    if form == 'note':
+        if t != pc + k.scale(12):
+            return False, '%r is not 12*k + pc' % (t,)
+    elif t != pc.scale(qz.H) + k.scale(qz.O):
         return False, '%r is not pc*H + k*O' % (t,)
     if ctx.decide(qz.enabled(Poly.sym('self.allowed'), pc, ctx)) is not True:
         return False, 'pitch class %r not known to be enabled' % (pc,)
@@ -662,7 +675,7 @@ def check_search(res, facts, prop):
                     # the returned note is the note of a visited candidate: its voltage is either within one half step of the
                     # input (close return) or it is the recorded best candidate (B form)
                     d = vin - volt
-                    close = o.ctx.decide(cmp_term('Lt', d, H)) is True and o.ctx.decide(cmp_term('Gt', d, -H)) is True
+                    close = _abs_cmp(o.ctx, 'Lt', d, Poly.const(H))
                     recorded = 'prev.' in repr(r.term)
                     res.ob('R-SEARCH', inst0 + '|returned note is a visited candidate', close or recorded,
                            'return value %r: voltage %r is neither within one half step of the input on this path nor the recorded best candidate' % (r.term, volt), where,
@@ -679,7 +692,7 @@ def check_search(res, facts, prop):
                         continue
                     if cur.term == ZERO and modes[1] == 'A':
                         continue   # still state A
-                    ok, why = inv_B(qz, cur.term, o.ctx)
+                    ok, why = inv_B(qz, cur.term, o.ctx, getattr(run, 'form', 'uv'))
                     res.ob('R-SEARCH', inst0 + '|best candidate stays an enabled candidate (inductive)', ok,
                            'best candidate at the back edge = %r: %s' % (cur.term, why), where, key='R-SEARCH:inductive:%s%s:%d' % (modes[0], modes[1], n_back))
             elif o.status in ('panic', 'stuck'):
@@ -735,6 +748,7 @@ def check_argmin_steps(res, qz, run, outs, vin, inst0, where):
         return 0
     best_l = [l for l, vv in run.acc_locals.items() if vv.term.const_value() == 0][0]
     dist_l = [l for l in run.acc_locals if l != best_l][0]
+    form = getattr(run, 'form', 'uv')
     # pass 1: the candidate of each analysed iteration = the term returned by a close return / stored by an update
     cands = {}
     for o in sem_iter(outs, include_loopback=True):
@@ -742,7 +756,7 @@ def check_argmin_steps(res, qz, run, outs, vin, inst0, where):
         if not pre or best_l not in pre or dist_l not in pre:
             continue
         visit = o.state.tags.get('search_visit')
-        best0, dist0 = pre[best_l], pre[dist_l]
+        best0, dist0 = best_to_volt(qz, pre[best_l], o.ctx, form), pre[dist_l]
         fr = o.state.frames[-1] if o.state.frames else None
         term = None
         if o.status == 'returned' and isinstance(o.ret, Num):
@@ -753,8 +767,10 @@ def check_argmin_steps(res, qz, run, outs, vin, inst0, where):
                 term = volt
         elif o.status == 'loopback' and fr is not None and fr.fn['path'] == run.fn_path:
             b1 = o.cells.get(fr.locals.get(best_l))
-            if isinstance(b1, Num) and not (b1.term == best0 or o.ctx.sem_eq(b1.term, best0)):
-                term = b1.term
+            if isinstance(b1, Num):
+                b1v = best_to_volt(qz, b1.term, o.ctx, form)
+                if not (b1v == best0 or o.ctx.sem_eq(b1v, best0)):
+                    term = b1v
         if term is not None:
             lst = cands.setdefault(visit, [])
             if not any(term == u for u in lst):
@@ -770,7 +786,7 @@ def check_argmin_steps(res, qz, run, outs, vin, inst0, where):
         pre = o.state.tags.get('search_pre')
         if not pre or best_l not in pre or dist_l not in pre:
             continue
-        best0, dist0 = pre[best_l], pre[dist_l]
+        best0, dist0 = best_to_volt(qz, pre[best_l], o.ctx, form), pre[dist_l]
         fr = o.state.frames[-1] if o.state.frames else None
         ctx = o.ctx
         if o.state.tags.get('search_visit') not in cands:
@@ -788,6 +804,7 @@ def check_argmin_steps(res, qz, run, outs, vin, inst0, where):
             if not (isinstance(b1, Num) and isinstance(d1, Num)):
                 res.ob('R-ARGMIN', inst + '|accumulators', False, 'accumulators at the back edge: %r, %r' % (b1, d1), where, key='R-ARGMIN:acc:%s:%d' % (inst0, n))
                 continue
+            b1 = Num(best_to_volt(qz, b1.term, ctx, form), b1.ty)
             same_best = b1.term == best0 or ctx.sem_eq(b1.term, best0)
             same_dist = d1.term == dist0 or ctx.sem_eq(d1.term, dist0)
             to_inner = o.state.tags.get('loopback_target') == o.state.tags.get('search_inner_head')
